@@ -60,6 +60,9 @@ type Thread struct {
 func (t *Thread) Pending() string { return t.kind.String() + ":" + t.label }
 func (t *Thread) Kind() OpKind    { return t.kind }
 
+// SleepUntil is the virtual time (ns since the origin) at which a sleeping thread wakes up
+func (t *Thread) SleepUntil() int64 { return t.until }
+
 // Timer is a virtual timer
 type Timer struct {
 	s        *Sched
